@@ -321,7 +321,7 @@ class R:
         else:
             params.append("result: SubMsgResult")
             echo.append("(\"result\", svmon::serde_json::to_string(&result).unwrap())")
-        if h["payload"] == "raw":
+        if h["payload"] == "raw" or h.get("raw_mark"):
             params.append(f"{h.get('payload_attr_text', '#[sv::payload(raw)]')} payload: Binary")
             echo.append("(\"payload\", j(&payload))")
         else:
